@@ -28,7 +28,10 @@ Age == now - stamp
 Valid == IF ExpireCheck THEN Age < E ELSE TRUE
 NeedsRefresh == R > 0 /\ Age > R
 Refreshes == Valid /\ NeedsRefresh /\ cfg.mode = "ok"
-Serves == Valid          \* every mode used here lets a valid session through (refresh ok, unsupported, or failed + validation ok)
+\* mode "form": the session comes from the htpasswd sign-in form - it holds no tokens, no provider can refresh or re-validate it: once it is
+\* due for a refresh it is not honoured any more (and in no case past the lifetime counted from the sign-in)
+Serves == IF cfg.mode = "form" THEN Valid /\ ~NeedsRefresh
+          ELSE Valid          \* every other mode lets a valid session through (refresh ok, unsupported, or failed + validation ok)
 
 Request ==
     /\ now >= 1 /\ reqs < MaxReqs
